@@ -400,7 +400,7 @@ func (rc *RunCtx) processFindings() {
 			continue
 		}
 		set := setOfHarness(rc, f.Harness)
-		path, err := rc.St.WriteReplay(replayDir, rc.Prop.ID, f)
+		path, err := rc.St.WriteReplaySet(replayDir, rc.Prop.ID, set, f)
 		if err != nil {
 			rc.inconclusive("cannot write replay: %v", err)
 			continue
